@@ -118,6 +118,7 @@ func init() {
 		"math.Log10":                     func(e *Engine, st *St, args []Value, fn *ssa.Function) Value { return &OpaqueV{What: "float"} },
 		"strings.Repeat":                 opaqueString,
 		"strings.Join":                   opaqueString,
+		"regexp.MustCompile":             zeroResult,
 	}
 }
 
